@@ -349,6 +349,11 @@ pub fn load_skeleton_args<S: Src>(s: &mut S, variant: u8, env_aspects: bool, fix
     };
     #[cfg(kani)]
     let path = String::new();
+    // (under Kani the path is unused; `path.clone()` of an empty String made CBMC report a spurious dealloc of an
+    // unconstrained pointer when `load` drops it - bisected, DESIGN 3c)
+    #[cfg(kani)]
+    crate::elf::load(String::new(), &mut cpu, args);
+    #[cfg(not(kani))]
     crate::elf::load(path.clone(), &mut cpu, args);
     #[cfg(not(kani))]
     let _ = std::fs::remove_file(&path);
